@@ -463,6 +463,7 @@ class Ctx:
 
     def __init__(self, ranges=None, facts=None, tables=None):
         self.elem_bounds = {}              # symbolic base sequence term -> (lo, hi) of all its elements (class invariant)
+        self.sym_deps = {}                 # name prefix of an unknown call result -> symbols its arguments mentioned
         self.ranges = dict(ranges or {})   # atom -> (lo, hi)
         self.facts = list(facts or [])     # list of B known true
         self.tables = tables or {}         # name -> list of Fractions
@@ -476,6 +477,7 @@ class Ctx:
         c.origin = self.origin
         c.origins = dict(self.origins)
         c.elem_bounds = dict(self.elem_bounds)
+        c.sym_deps = dict(self.sym_deps)
         return c
 
     def elem_hull(self, term):
